@@ -326,12 +326,18 @@ Definition obs_events (denoms : list Z) (evs : list (Z * list devent)) : list Z 
   :: flat_map (fun e => fst e :: Z.of_nat (length (real_events e))
                         :: flat_map (fun x => fst (fst x) :: snd (fst x) :: obs_coins denoms (snd x)) (real_events e)) groups.
 
-Inductive dop := DInflow (a : Z) (c : dcoins) | DBlock (faults : list bool).
+(* a parameter update between blocks (Keeper.SetParams after Params.Validate, modelled in Params.v): the configuration is
+   replaced, the stored states and every balance stay as they are *)
+Definition dist_set_subs (w : dworld) (subs : list subdist) : dworld :=
+  {| dw_subs := subs; dw_states := dw_states w; dw_bal := dw_bal w; dw_burned := dw_burned w; dw_burnkey := dw_burnkey w |}.
+
+Inductive dop := DInflow (a : Z) (c : dcoins) | DBlock (faults : list bool) | DSetSubs (subs : list subdist).
 
 Fixpoint check_dops (w : dworld) (addrs denoms : list Z) (ops : list (dop * list Z)) (i : Z) : option (Z * list Z) :=
   match ops with
   | [] => None
   | (DInflow a c, _) :: t => check_dops (dist_inflow w a c) addrs denoms t (i + 1)
+  | (DSetSubs subs, _) :: t => check_dops (dist_set_subs w subs) addrs denoms t (i + 1)
   | (DBlock faults, expected) :: t =>
       match dist_begin_block w faults with
       | Ok (w', evs, calls) =>
